@@ -1,7 +1,100 @@
+import AuModel.Unit
+import AuModel.UnitKey
 import Driver.Util
+
+/-! Driver commands for C02 (and the unit-expression parser shared with C07/C10/C14/C18).
+
+  unit <sexpr>      →  dim=<pack> mag=<pack>
+  sexpr ::= ( n <id> <dimpack> <magpack> ) | ( mul e e ) | ( div e e ) | ( pow e <num>/<den> )
+          | ( scale e <magpack> )
+  pack  ::= - | base^num/den{,base^num/den}     base ::= d<int> | p<nat> | pi
+-/
 open Au
 
-def dispatchC02 : List String → Option String
+def parseRat? (s : String) : Option Rat :=
+  match s.splitOn "/" with
+  | [n, d] => match n.toInt?, d.toNat? with
+    | some n, some d => if d = 0 then none else some (mkRat n d)
+    | _, _ => none
+  | [n] => n.toInt?.map (fun n => (n : Rat))
   | _ => none
 
-/-! Driver commands for C02. -/
+def parseMagBase? (s : String) : Option MagBase :=
+  if s == "pi" then some .pi
+  else if s.startsWith "p" then (s.drop 1).toString.toNat?.map MagBase.prime
+  else none
+
+def parseDimBase? (s : String) : Option Int :=
+  if s.startsWith "d" then (s.drop 1).toString.toInt? else none
+
+def parsePackWith {β : Type} (pb : String → Option β) (s : String) : Option (Pack β) :=
+  if s == "-" then some [] else
+  (s.splitOn ",").mapM (fun tok =>
+    match tok.splitOn "^" with
+    | [b, e] => do
+      let b ← pb b
+      let e ← parseRat? e
+      pure (b, e)
+    | _ => none)
+
+def parseMag? : String → Option Mag := parsePackWith parseMagBase?
+def parseDim? : String → Option Dim := parsePackWith parseDimBase?
+
+/-- A parsed expression together with the (id ↦ dim, mag) facts of its atoms. -/
+structure Parsed where
+  expr : UExpr
+  atoms : List (Nat × Dim × Mag)
+
+partial def parseExpr : List String → Option (Parsed × List String)
+  | "(" :: "n" :: id :: d :: m :: ")" :: rest => do
+    let id ← id.toNat?
+    let d ← parseDim? d
+    let m ← parseMag? m
+    pure (⟨.atom (.named id), [(id, d, m)]⟩, rest)
+  | "(" :: "mul" :: rest => do
+    let (a, rest) ← parseExpr rest
+    let (b, rest) ← parseExpr rest
+    match rest with
+    | ")" :: rest => pure (⟨.mul a.expr b.expr, a.atoms ++ b.atoms⟩, rest)
+    | _ => none
+  | "(" :: "div" :: rest => do
+    let (a, rest) ← parseExpr rest
+    let (b, rest) ← parseExpr rest
+    match rest with
+    | ")" :: rest => pure (⟨.div a.expr b.expr, a.atoms ++ b.atoms⟩, rest)
+    | _ => none
+  | "(" :: "pow" :: rest => do
+    let (a, rest) ← parseExpr rest
+    match rest with
+    | q :: ")" :: rest => do
+      let q ← parseRat? q
+      pure (⟨.pow a.expr q, a.atoms⟩, rest)
+    | _ => none
+  | "(" :: "scale" :: rest => do
+    let (a, rest) ← parseExpr rest
+    match rest with
+    | m :: ")" :: rest => do
+      let m ← parseMag? m
+      pure (⟨.scale a.expr m, a.atoms⟩, rest)
+    | _ => none
+  | _ => none
+
+def envOf (atoms : List (Nat × Dim × Mag)) : Env where
+  dim n := match atoms.find? (fun a => a.1 == n) with
+    | some a => a.2.1
+    | none => []
+  mag n := match atoms.find? (fun a => a.1 == n) with
+    | some a => a.2.2
+    | none => []
+
+def cmdUnit (toks : List String) : String :=
+  match parseExpr toks with
+  | some (p, []) =>
+    let env := envOf p.atoms
+    let u := p.expr.eval U.keyLt
+    s!"dim={dimKey (u.dimOf env)} mag={magKey (u.magOf env)}"
+  | _ => "bad-op"
+
+def dispatchC02 : List String → Option String
+  | "unit" :: args => some (cmdUnit args)
+  | _ => none
